@@ -1169,3 +1169,47 @@ Proof.
   intros Hq. assert (q = 0 \/ q = 1 \/ q = 2 \/ q = 3) as [-> | [-> | [-> | ->]]] by lia;
     destruct cs; vm_compute; tauto.
 Qed.
+
+(* ------------------------------------------------------------------ documented layout, every depth *)
+(* lattice of depth m+1: c = 2^m is the middle index, 2c the last one *)
+Theorem layout_all_depths cs : forall m, let c := 2 ^ N.of_nat m in
+  vertex1 cs m c c = b_north Base cs /\
+  vertex1 cs m 0 0 = b_south Base cs /\ vertex1 cs m (2 * c) 0 = b_south Base cs /\
+  vertex1 cs m 0 (2 * c) = b_south Base cs /\ vertex1 cs m (2 * c) (2 * c) = b_south Base cs /\
+  vertex1 cs m (2 * c) c = b_eq Base cs 0 /\ vertex1 cs m c 0 = b_eq Base cs 1 /\
+  vertex1 cs m 0 c = b_eq Base cs 2 /\ vertex1 cs m c (2 * c) = b_eq Base cs 3.
+Proof.
+  induction m as [|m IH].
+  - destruct cs; repeat split; reflexivity.
+  - destruct IH as (I1 & I2 & I3 & I4 & I5 & I6 & I7 & I8 & I9).
+    cbv zeta. rewrite pow2_S. set (c := 2 ^ N.of_nat m) in *.
+    rewrite !vertex1_even_even, !V_e0, !V_0e. change (vertex1 cs (S m) 0 0) with (vertex1 cs (S m) (2 * 0) (2 * 0)).
+    rewrite vertex1_even_even. repeat split; assumption.
+Qed.
+
+(* a term built from equator vertices only *)
+Fixpoint equatorial (p : pt) : bool :=
+  match p with Base k => k <? 4 | Mid a b => equatorial a && equatorial b end.
+
+Lemma incr_at_quadrant m x y : let c := 2 ^ N.of_nat m in
+  incr_at (S m) x y = Bool.eqb (x <? c) (y <? c).
+Proof. reflexivity. Qed.
+
+(* the equator is the inscribed diamond: its four sides, at every depth *)
+Theorem diamond_is_equator cs : forall m i j, let c := 2 ^ N.of_nat m in
+  i <= 2 * c -> j <= 2 * c ->
+  (i + j = c \/ i = j + c \/ j = i + c \/ i + j = 3 * c) ->
+  equatorial (vertex1 cs m i j) = true.
+Proof.
+  induction m as [|m IH]; intros i j c Hi Hj Hd.
+  - change (2 ^ N.of_nat 0) with 1 in c. unfold c in *.
+    assert ((i = 1 /\ j = 0) \/ (i = 0 /\ j = 1) \/ (i = 2 /\ j = 1) \/ (i = 1 /\ j = 2)) as [[-> ->]|[[-> ->]|[[-> ->]|[-> ->]]]] by lia;
+      destruct cs; reflexivity.
+  - unfold c in *. clear c. rewrite pow2_S in *. set (c := 2 ^ N.of_nat m) in *.
+    assert (Hc : 0 < c) by apply pow2_pos.
+    destruct (half_cases i) as [[a ->]|[a ->]]; destruct (half_cases j) as [[b ->]|[b ->]]; try lia.
+    + rewrite vertex1_even_even. apply IH; fold c; lia.
+    + rewrite vertex1_odd_odd, incr_at_quadrant. fold c.
+      destruct (N.ltb_spec a c), (N.ltb_spec b c); cbn [Bool.eqb equatorial];
+        apply andb_true_iff; split; apply IH; fold c; lia.
+Qed.
